@@ -1,4 +1,4 @@
-import RsjProofs.EvalScopeHoare
+import RsjProofs.EvalSafeRun
 /-!
   C01 on the evaluator model, the last message ("partial_cmp of NaN"): no number stored in a
   finished thunk is a NaN (`NN`).  A value is NaN-free (`VNN`) when it is not a NaN number — arrays,
